@@ -6,6 +6,7 @@ import json
 
 from common import (OUT, REPO, Report, ToolError, build_harness, digest, log, read_ndjson, run_tlc,
                     seed, split_runs, tlc_printed, tpv, validate_trace)
+from checks.pairing import pairing_stage
 
 NEED_ACTIONS = ["DoReceive", "DoParse", "DoAuthenticate", "DoAuthorise", "DoDebugGate", "DoDispatch"]
 CRED_ORDER = ["none", "wrong", "w-empty", "w-prefix", "w-ext", "w-case", "w-pprefix", "w-pext", "xe", "re", "pv", "po", "pe", "pa", "admin"]
@@ -69,6 +70,10 @@ def run(prop, tier, replay):
     rep = Report(prop, tier, "model_checking")
     build_harness()
     mc, inv, n_behaviours = None, {}, 0
+    if replay and json.loads(open(replay).read())["replay"].get("stage") == "pairing":
+        # a violation of the pairing stage: only that stage is replayed
+        pcov = pairing_stage(rep, tier, work, replay_script=json.loads(open(replay).read())["replay"]["script"])
+        return rep.finish(dict(pcov, evaluations=pcov["pairing_steps_validated"], enumeration_complete=False, exhaustive=False))
     if replay:
         scripts = [json.loads(open(replay).read())["replay"]["script"]]
     else:
@@ -162,6 +167,9 @@ def run(prop, tier, replay):
         "enumeration_complete": not replay,
         "exhaustive": False,
     }
+    if not replay:
+        # second stage: the life cycle that makes a pairing token valid (spec/Pairing.tla)
+        cov.update(pairing_stage(rep, tier, work))
     return rep.finish(cov, assumptions=[
         "the required role of a request kind is a parameter of the specification (the repository documents no role table): it is "
         "observed per (configuration, request line) as the least role let through, and must be an admissible, monotone threshold",
@@ -175,4 +183,9 @@ def run(prop, tier, replay):
         "(a sufficient role must not be turned away by a gate); every refusal verdict rests on ok / result / state probes",
         "request lines are valid UTF-8; a handler that was entitled to run and never replies (positively wedged on an endpoint lock) "
         "is reported as NOTE, not as a violation; a silence without that evidence is a tool error",
-        "a panic of the runtime cycle caused by a legitimately queued write is outside this property (C01)"])
+        "a panic of the runtime cycle caused by a legitimately queued write is outside this property (C01)",
+        "pairing stage: the store is specified as the code behaves (a code and a token are still good AT the second they expire at; "
+        "claim trims the code it is given; ids are pair-<second of the claim> and shared by claims within one second; a file entry "
+        "without expiry is re-armed for one second by every restart); the clock never runs backwards; codes are unique within a run "
+        "(a run in which two random secrets collide is repeated); the required roles of status / restart / io.unforce / pair.* are "
+        "those of required_role_for_control_request; failing file writes are not modelled"])
